@@ -231,3 +231,17 @@ TEXT["C08"] = {
              "state are taken to belong to the same receiver); the reduction from race-freedom to atomic critical sections; deadlock freedom rests on the checked acquisition order (standard argument, "
              "not mechanised). Not modelled: Go memory model below locks, channel fairness, RWMutex writer preference. The tie is sampled; schedules are whatever the runtime produces."),
 }
+
+TEXT["C15"] = {
+    "design_ref": "DESIGN.md §4.15",
+    "technique": "Lean 4 invariant proofs over a transition system of manageEvalLoop + session events + request loops with the environment free to act at any point (partial: atomic-step model) + real-time differential correspondence of the real loops against a scripted fake Zookeeper",
+    "text": ("Proof (partial): Props/C15.lean proves over every sequence of lock failures, expiries and reconnections with any timing: resumes_only_after — the gate is (re)opened only after the "
+             "connection was seen back, the old lock released and the lock acquired again, in that order; holder_only_partial — if no expiry is broadcast between Lock() returning and the manager "
+             "reaching Wait(), the gate is open only between setting and clearing the flag, the lock is owned from acquisition until an expiry wakes the manager, and no sweep ever runs without the "
+             "lock (other than in the instant before the woken manager clears the flag; woken_clears); pacing — evaluation times of a continuously listed group are pairwise more than the shortest "
+             "interval apart for any sweep times of any number of loops. Known finding D12: lost_wakeup_witness + lost_wakeup_stuck prove that an expiry delivered between Lock() returning and Wait() "
+             "is lost and the instance then evaluates WITHOUT the lock for every continuation until a further expiry; reproduced on the real code in every run (KNOWN-FINDING). Tie: real loops "
+             "+ real zookeeper coordinator vs the model's trace on scripted multi-cycle scenarios in real time."),
+    "note": ("Trusted: Lean kernel + 3 standard axioms; the atomic-step abstraction; real-time margins; the fake Zookeeper's semantics. Not modelled: preemption inside steps, the data race on the plain "
+             "bool, the non-exclusive RLock around LastEval, Unlock failing after expiry (Burrow panics by design). The tie is sampled."),
+}
